@@ -3,6 +3,9 @@ import CM.Proofs.EolEnd
 import CM.Proofs.EolInvariant
 import CM.Proofs.EolLabel2
 import CM.Proofs.EolFinal
+import CM.Proofs.EolN4
+import CM.Proofs.EolG13
+import CM.Proofs.EolDoc
 /-
 C14 — clause (b): prepending blank lines changes nothing but offsets and line numbers, which shift by exactly the
 prefix. Proved about the stream-machine model (`Model/Stream.lean`) for EVERY line parser `L : LineParserI`: the
@@ -12,7 +15,7 @@ the stream-level part of clause (c). Clause (a) (line-ending style) and the rest
 and inline models and are decided by relational oracles on the implementation.
 -/
 namespace CM.Props.C14
-open CM CM.Model CM.Proofs
+open CM CM.Model CM.Proofs CM.Proofs.EolN CM.Proofs.EolG
 
 /-- (b) For every line parser, every input `x` and every prefix `p` of whole blank lines (spaces, tabs, line endings;
     ending in a line ending; not ending in a CR that would merge with an LF starting `x`): parsing `p ++ x` delivers
@@ -111,5 +114,40 @@ theorem lines_final_newline (pre last : Bytes) (hpre : terminated pre = true) (h
 
 /-- Clause (c) read as "block trees equal up to the final position" is FALSE (the HTML end condition above). -/
 theorem blocks_final_newline_false : ¬ blocks_final_newline_target := blocks_final_newline_target_false
+
+/-! ### Clause (a) for ALL CR-free inputs (second wave: 48 further files `EolRd*`, `EolW1`, `EolX*`, `EolG*`, `EolN*`, `EolDoc`) -/
+
+/-- **LF → CR, block phase, every CR-free input** - with link syntax, with NUL bytes, no other hypothesis: the roots of the
+    re-written input are exactly the images of the original roots (offsets, lines, Source, every span) and the run ends the same
+    way. The definition parser's reader is simulated under the position map; the C01 contract aligns cuts with NUL padding. -/
+theorem blocks_cr_sim_all (x : PExt) (inp : Bytes) (hcr : NoCR inp) (n : Nat) (hn : inp.length + 1 ≤ n) :
+    (drain (blocksLP x) n (memParser (toCR inp)) []).1 =
+      (drain (blocksLP x) n (memParser inp) []).1.map (mapRootN [CR] inp) ∧
+    (drain (blocksLP x) n (memParser (toCR inp)) []).2.1 = (drain (blocksLP x) n (memParser inp) []).2.1 :=
+  EolN.blocks_cr_sim_all x inp hcr n hn
+
+/-- **LF → CRLF (or CR), block phase, every CR-free input on which no accepted link label straddles the 999 limit** when each
+    line ending counts two: `blocksLPq x 1` is the block parser that evaluates exactly that (decidable) condition at every line;
+    the label byte count is proved to be the ONLY mechanism of the block phase that tells CRLF from LF (`labelW_eq`,
+    `parseLinkLabelW_sim`: the CRLF scanner IS the scanner that counts a line feed as two bytes). -/
+theorem blocks_eol_sim_nul (x : PExt) {e : Bytes} (he : StdEol e) (inp : Bytes) (hcr : NoCR inp) (n : Nat)
+    (hend : ∃ er, (drain (blocksLPq x (e.length - 1)) n (memParser inp) []).2.1 = .err er) :
+    (drain (blocksLP x) n (memParser (toEol e inp)) []).1 =
+      (drain (blocksLP x) n (memParser inp) []).1.map (mapRootN e inp) ∧
+    (drain (blocksLP x) n (memParser (toEol e inp)) []).2.1 = (drain (blocksLP x) n (memParser inp) []).2.1 :=
+  EolN.blocks_eol_sim_nul x he inp hcr n hend
+
+/-- The same at the level of `Parse`, for CR: roots and ending; and the reference matcher Rewrite is given is the SAME function
+    for the re-written input (keys are invariant), so clause (a) is reduced to Rewrite on one root under the position map. -/
+theorem parseDoc_blocks_cr_all (x : PExt) (ix : IExt) (inp : Bytes) (hcr : NoCR inp) :
+    (parseDoc x ix (toCR inp)).roots.map (·.root) = (parseDoc x ix inp).roots.map (fun r => mapRootN [CR] inp r.root) ∧
+    (parseDoc x ix (toCR inp)).ending = (parseDoc x ix inp).ending :=
+  EolG.parseDoc_blocks_cr_all x ix inp hcr
+
+theorem matchRef_eol (x : PExt) (ix : IExt) {e : Bytes} (he : StdEol e) (inp : Bytes) (hcr : NoCR inp)
+    (hchk : ∃ er, (drain (blocksLPq x (e.length - 1)) (inp.length + 8) (memParser inp) []).2.1 = .err er) :
+    keys (parseDoc x ix (toEol e inp)).refs = keys (parseDoc x ix inp).refs ∧
+    matchRefOf (parseDoc x ix (toEol e inp)) = matchRefOf (parseDoc x ix inp) :=
+  EolG.matchRef_eol x ix he inp hcr hchk
 
 end CM.Props.C14
